@@ -33,7 +33,7 @@ def gen_walk_scripts(ctx, kind, ty, n, rng):
     walks = behaviours.cover_walks(g, max_walk=1500, rng=rng)
     scripts = []
     for wi, w in enumerate(walks):
-        nf = 1 if wi % 3 != 2 else 0
+        nf = [1, 3, 0, 2, 1][wi % 5]
         wd = wi % 2
         lines = ["reset", "univ %d" % n, "new %d %d %d" % (ty, nf, wd)]
         expect = []
@@ -50,7 +50,7 @@ def gen_walk_scripts(ctx, kind, ty, n, rng):
 
 
 def gen_random_script(rng, ty, nkeys, nops, full_obs):
-    lines = ["reset", "univ %d" % (nkeys if full_obs else 8), "new %d %d %d" % (ty, rng.randint(0, 1), rng.randint(0, 1))]
+    lines = ["reset", "univ %d" % (nkeys if full_obs else 8), "new %d %d %d" % (ty, rng.randint(0, 3), rng.randint(0, 1))]
     phase = 0
     i = 0
     cnt = 0
